@@ -640,12 +640,39 @@ func c08R2(ic *IC, r *Report) {
 					kind = "go"
 					gos++
 				}
+				// the body of a function literal started by a go statement (go func() { defer ...; runCfg(...) }())
+				if kind == "call" && fn.Parent() != nil {
+					for _, pb := range fn.Parent().Blocks {
+						for _, pi := range pb.Instrs {
+							if g, ok := pi.(*ssa.Go); ok {
+								if mc, ok := g.Call.Value.(*ssa.MakeClosure); ok && mc.Fn == ssa.Value(fn) {
+									kind = "go"
+									gos++
+								}
+							}
+						}
+					}
+				}
 				if _, ok := ins.(*ssa.Defer); ok {
 					kind = "defer"
 				}
 				frameArg := ci.Common().Args[1]
 				var bad, good []string
+				var os []ssa.Value
 				for _, o := range origins(frameArg, map[ssa.Value]bool{}) {
+					// a captured cell (the frame variable of the enclosing closure, captured by the
+					// function literal a go statement starts): what the enclosing function stored in it
+					if u, ok := o.(*ssa.UnOp); ok {
+						if fv, ok := u.X.(*ssa.FreeVar); ok {
+							if vals := freeVarOrigins(fv); len(vals) > 0 {
+								os = append(os, vals...)
+								continue
+							}
+						}
+					}
+					os = append(os, o)
+				}
+				for _, o := range os {
 					d := describeValue(o)
 					okOrigin := false
 					if call, ok := o.(*ssa.Call); ok {
